@@ -365,8 +365,15 @@ func (ff *FuncFacts) Must(T *ssa.BasicBlock) []Atom {
 		if !ff.reachFrom(B, nil)[T] {
 			continue
 		}
+		if lp := ff.innermost[B]; lp != nil && !ff.reachWithin(lp, B, T, nil) {
+			continue // B comes after T in the iteration (only reachable round the back edge)
+		}
 		r0 := ff.reachFrom(B.Succs[0], nil)[T]
 		r1 := ff.reachFrom(B.Succs[1], nil)[T]
+		if lp := ff.innermost[B]; lp != nil {
+			r0 = ff.reachWithin(lp, B.Succs[0], T, nil) && B.Succs[0] != lp.Header
+			r1 = ff.reachWithin(lp, B.Succs[1], T, nil) && B.Succs[1] != lp.Header
+		}
 		if r0 == r1 {
 			continue
 		}
@@ -649,7 +656,7 @@ func (ff *FuncFacts) classify(v ssa.Value, b *ssa.BasicBlock, ret *ssa.Return, d
 			}
 		}
 		if call := ff.callTerm(v); call != "" {
-			if isAlwaysErr(v) {
+			if isAlwaysErr(v) || ff.alwaysErrCallee(v) {
 				return mk(ExitReject, nil, desc)
 			}
 			if arg, ok := ff.nilPreserving(v); ok {
@@ -958,4 +965,116 @@ func (ff *FuncFacts) StoreFacts() []StoreFact {
 type StoreFact struct {
 	S  string
 	In ssa.Instruction
+}
+
+var alwaysErrMemo = map[*ssa.Function]int{} // 1 = yes, 2 = no, 3 = in progress
+
+// alwaysErrCallee: v is a call to a module function all of whose exits return a
+// non-nil error (an error constructor such as blockdb.NewErrUnspentNotExist).
+func (ff *FuncFacts) alwaysErrCallee(v ssa.Value) bool {
+	c, ok := v.(*ssa.Call)
+	if !ok {
+		return false
+	}
+	f := c.Call.StaticCallee()
+	if f == nil || f.Blocks == nil || !InModule(f) {
+		return false
+	}
+	switch alwaysErrMemo[f] {
+	case 1:
+		return true
+	case 2, 3:
+		return false
+	}
+	alwaysErrMemo[f] = 3
+	res := true
+	exits := ff.P.Facts(f).Exits()
+	if len(exits) == 0 {
+		res = false
+	}
+	for _, ex := range exits {
+		if ex.Kind != ExitReject {
+			res = false
+		}
+	}
+	if res {
+		alwaysErrMemo[f] = 1
+	} else {
+		alwaysErrMemo[f] = 2
+	}
+	return res
+}
+
+// reachWithin: is `to` reachable from `from` staying inside loop lp, not passing
+// through `avoid`, and not re-entering the header?
+func (ff *FuncFacts) reachWithin(lp *Loop, from, to, avoid *ssa.BasicBlock) bool {
+	seen := map[*ssa.BasicBlock]bool{}
+	stack := []*ssa.BasicBlock{from}
+	first := true
+	for len(stack) > 0 {
+		n := stack[len(stack)-1]
+		stack = stack[:len(stack)-1]
+		if seen[n] || n == avoid || !lp.Blocks[n] {
+			continue
+		}
+		if n == lp.Header && !first {
+			continue
+		}
+		first = false
+		seen[n] = true
+		if n == to {
+			return true
+		}
+		stack = append(stack, n.Succs...)
+	}
+	return false
+}
+
+// PathFacts enumerates the acyclic paths reaching block T — from the header of T's
+// innermost loop when T is inside a loop (one iteration), else from the entry block —
+// and returns, per path, the branch atoms taken.  ok=false if more than maxPaths.
+func (ff *FuncFacts) PathFacts(T *ssa.BasicBlock, maxPaths int) (paths [][]string, ok bool) {
+	start := ff.Fn.Blocks[0]
+	lp := ff.innermost[T]
+	if lp != nil {
+		start = lp.Header
+	}
+	ok = true
+	var cur []string
+	onPath := map[*ssa.BasicBlock]bool{}
+	var dfs func(b *ssa.BasicBlock)
+	dfs = func(b *ssa.BasicBlock) {
+		if !ok {
+			return
+		}
+		if b == T {
+			paths = append(paths, append([]string(nil), cur...))
+			if len(paths) > maxPaths {
+				ok = false
+			}
+			return
+		}
+		if onPath[b] {
+			return
+		}
+		if lp != nil && !lp.Blocks[b] {
+			return
+		}
+		if !ff.reachFrom(b, nil)[T] {
+			return
+		}
+		onPath[b] = true
+		for _, s := range b.Succs {
+			if lp != nil && s == lp.Header {
+				continue
+			}
+			n := len(cur)
+			cur = append(cur, ff.edgeAtoms(b, s)...)
+			dfs(s)
+			cur = cur[:n]
+		}
+		onPath[b] = false
+	}
+	dfs(start)
+	return
 }
